@@ -269,6 +269,7 @@ def check_C15(ctx, rep):
     rep.rule('C15.R4', 'queue tag agreement: every Queue tag handed out with a peeked event names the heap the event came from, EventQueue::pop '
              'pops the heap its tag names (exhaustive over Queue), and the SimQueue wrappers route to the side selected by is_client')
     check_queue_tags(ctx, rep, 'C15.R4')
+    check_pop_blocking(ctx, rep, 'C15.R4')
     rep.assumptions += ['ordering/time properties of the queue machinery and the "exactly that many when the run ends" count are NOT decided',
                         'every CFG path is treated as feasible']
     return 'producer table of packet events in the simulator, queue completeness, final sort'
@@ -465,6 +466,7 @@ def check_C16(ctx, rep):
     rep.rule('C16.R5', 'bypass classification: queue::peek_blocking treats the bypassable heap as blocked exactly when the active blocking is not '
              'bypassable, queue::peek_non_blocking treats it as free exactly when it is; peek_queue_earliest_side passes the side\'s own flag')
     check_bypass_classification(ctx, rep, 'C16.R5')
+    check_pop_blocking(ctx, rep, 'C16.R5')
     rep.assumptions += ['which queued packet leaves while blocked (peek selection among queues) is NOT decided',
                         'every CFG path is treated as feasible']
     return 'handler tables for blocking in the simulator, Option-slot typestate, producer inventory, side consistency of the bypass decision'
@@ -1422,6 +1424,54 @@ def check_queue_tags(ctx, rep, rid):
                                                             (f2[0] == 'eqc' and f2[1] == ('param', pi) and (f2[2] != '0') is want) or
                                                             (f2[0] == 'nec' and f2[1] == ('param', pi) and ('0' in f2[2]) is want) for f2 in S))
             rep.ob(rid, fn, 'routes-to-own-side:%s' % ('client' if want else 'server'), ok, '')
+
+
+def check_pop_blocking(ctx, rep, rid):
+    """SimQueue::pop_blocking removes the event peek_blocking handed out: with bypassable blocking active only the blocking heap
+    holds blocked events; otherwise the heap named by the tag that came with the peeked event"""
+    prog, an = ctx.prog, ctx.an
+    fn = prog.fn(SIM, 'SimQueue', 'pop_blocking')
+    fa = an.get(fn)
+    pf = an.paths(fn, history=True)
+    pq = pb = None
+    for v in fn.dbg:
+        if not v['p']['pr'] and 1 <= v['p']['l'] <= fn.argc:
+            if fn.inputs[v['p']['l'] - 1].endswith('queue_event::Queue'):
+                pq = v['p']['l']
+    bools = [i + 1 for i, t_ in enumerate(fn.inputs) if t_ == 'bool']
+    # (q: Queue, bypassable: bool, is_client: bool): the first bool parameter is the bypassable flag
+    if pq is None or len(bools) < 2:
+        rep.fail_closed(rid, 'SimQueue::pop_blocking(q, bypassable, is_client, ..) signature')
+        return
+    pb = bools[0]
+    n = 0
+    for b in sorted(fa.cfg.reach):
+        t = fa.blocks[b]['t']
+        if t['k'] != 'call' or 'indirect' in t['f']:
+            continue
+        cs = callee_str(t['f'])
+        args = tuple(fa.operand(x, (b, len(fa.blocks[b]['s']))) for x in t['a'])
+        if cs.endswith('BinaryHeap::<T, A>::pop') or cs.endswith('BinaryHeap::<T>::pop'):
+            n += 1
+            h = heap_of(args[0])
+            ok, w = all_paths(pf.at_entry(b), lambda S: any(f[0] == 'btrue' and f[1] == ('param', pb) and f[2] is True for f in S))
+            rep.ob(rid, fn, 'direct-pop-only-under-bypassable-blocking', ok and h == 'blocking', 'pops heap %s' % h)
+        elif cs.endswith('SimQueue::pop') or cs.endswith('EventQueue::pop'):
+            n += 1
+            qop = t['a'][1]
+            ql = (qop.get('m') or qop.get('c') or {}).get('l')
+            for S in pf.at_call(b):
+                flag = [f[2] for f in S if f[0] == 'btrue' and f[1] == ('param', pb)]
+                tracked = pf.tracked_const(S, ql) if ql is not None else None
+                # resolve one copy: `_x = move _q`
+                val = args[1]
+                if flag and flag[0] is False:
+                    ok = tracked is None and (val == ('param', pq) or (val[0] == 'phi' and ('param', pq) in val[1]))
+                    rep.ob(rid, fn, 'tag-passed-through-when-blocking-is-not-bypassable', ok, 'pop(%s) on the non-bypassable path%s' % (shape(val)[:40], ' (constant %s)' % tracked if tracked else ''))
+                elif flag and flag[0] is True:
+                    ok = (tracked or '').endswith('::Blocking') or val == ('param', pq) or (val[0] == 'phi' and ('param', pq) in val[1])
+                    rep.ob(rid, fn, 'blocking-heap-under-bypassable-blocking', ok, 'pop(%s)' % shape(val)[:40])
+    rep.count_floor(rid, 'pop sites in SimQueue::pop_blocking', n, 1)
 
 
 def check_bypass_classification(ctx, rep, rid):
